@@ -159,6 +159,7 @@ class Unit:
         self.aliases = cfg.get('aliases', {})
         self.alias_rules = [(re.compile(a), b) for a, b in cfg.get('alias_rules', [])]
         self.rec_cname_cache = {}
+        self.fn_alias_rules = [(re.compile(a), b) for a, b in cfg.get('fn_alias_rules', [])]
         self.cur_lam_env = {}
         self.fn_lam_env = {}
         self.closure_by_id = {}
@@ -178,6 +179,7 @@ class Unit:
         self.func_bodies = {}   # cname -> text
         self.func_info = {}     # cname -> dict(qual, file, line, loops)
         self.pending = []
+        self.adapters = []
         self.used_names = {}
         self.std_used = set()
         self.loop_macros = []
@@ -812,6 +814,21 @@ class Emitter(Unit):
             except (Unsupported, T.TypeErr) as e:
                 err = e
                 continue
+        if n.get('kind') == 'VarDecl' and n.get('inner'):
+            # auto-deduced declaration whose printed type keeps sugar from another scope: use the initialiser's type
+            qs = (ty.get('qualType') or '').strip()
+            init = n['inner'][-1]
+            try:
+                it = T.strip_ref(self.ntype(init, ctx))
+                if qs.endswith('&&'):
+                    return ('rr', it)
+                if qs.endswith('&'):
+                    return ('r', ('c', it) if qs.startswith('const') else it)
+                if qs.endswith('*') or qs.endswith('* const'):
+                    return self.ntype(init, ctx)
+                return ('c', it) if qs.startswith('const') else it
+            except (Unsupported, T.TypeErr):
+                pass
         raise Unsupported('cannot resolve type %r of %s at %s:%s: %s' % (ty, n.get('kind'), n.get('_file'), n.get('_line'), err))
 
     def rec_kind(self, t):
@@ -828,8 +845,9 @@ class Emitter(Unit):
             return self.rec_cname_cache[canon]
         name = None
         for rx, nm in self.alias_rules:
-            if rx.search(canon):
-                name = nm
+            mm = rx.search(canon)
+            if mm:
+                name = nm if nm is not None else 'Verif' + mm.group(1)
                 break
         if name is None:
             if q.startswith('std::'):
@@ -1157,7 +1175,9 @@ class Emitter(Unit):
                     nm = 'dtor'
                 elif nm.startswith('operator'):
                     nm = 'op_' + mangle({'operator=': 'assign', 'operator()': 'call', 'operator[]': 'index', 'operator<<': 'shl',
-                                         'operator bool': 'bool', 'operator*': 'deref'}.get(nm, nm[8:]))
+                                         'operator bool': 'bool', 'operator*': 'deref', 'operator==': 'eq', 'operator!=': 'ne',
+                                         'operator<': 'lt', 'operator+': 'plus', 'operator-': 'minus', 'operator+=': 'pluseq',
+                                         'operator-=': 'minuseq', 'operator<=': 'le', 'operator>': 'gt', 'operator>=': 'ge'}.get(nm, nm[8:]))
                 base = rcn + '__' + nm
             if not recn.get('name'):
                 sibs = []
@@ -1185,6 +1205,11 @@ class Emitter(Unit):
             if len(sigs) > 1:
                 params = [c for c in f.get('inner', []) or [] if c.get('kind') == 'ParmVarDecl']
                 name += '__' + '_'.join(self.tmangle(self.ntype(pp, fid)) for pp in params) if params else '__void'
+        for rx, tmpl in getattr(self, 'fn_alias_rules', []):
+            mm = rx.search(name)
+            if mm:
+                name = mm.expand(tmpl)
+                break
         owner = self.used_names.setdefault(('fn', name), fid)
         if owner != fid:
             name = name + '__' + hashlib.sha1((f.get('mangledName') or fid).encode()).hexdigest()[:8]
@@ -1356,6 +1381,11 @@ class Emitter(Unit):
         return cname
 
     def run(self, roots):
+        for pat in self.cfg.get('force_records', []):
+            rx = re.compile(pat)
+            for canon, rec in sorted(self.records.items()):
+                if rx.search(canon):
+                    self.record_ctype(('n', self.decl_comps(rec['id'])))
         for fid in roots:
             self.request(fid)
         while self.pending:
@@ -1615,7 +1645,36 @@ class Emitter(Unit):
         fc.temps[-1].append(self.ctype(self.unconst_deep(T.strip_ref(ty)), nm) + ';')
         return nm
 
+    def vla_type(self, v, fc):
+        """GNU variable-length array whose bound is a call of a static constexpr member: long a[obj.f()]"""
+        qs = (v.get('type') or {}).get('qualType', '')
+        m = re.match(r'^(.*?)\[(?:this->)?(\w+)\.(\w+)\(\)\]$', qs)
+        if not m:
+            return None
+        elt, fld, meth = m.group(1), m.group(2), m.group(3)
+        rec = None
+        for sc in self.scope_chain(fc.fid):
+            sn = self.ix.get(sc)
+            if sn['kind'] in REC_KINDS:
+                for c in sn.get('inner', []) or []:
+                    if c.get('kind') == 'FieldDecl' and c.get('name') == fld:
+                        ft = T.strip_ref(self.ntype(c, sc))
+                        if ft[0] == 'n':
+                            rec = self.find_record(ft[1])
+                break
+        if rec is None:
+            raise Unsupported('VLA bound %s: cannot find the object' % qs)
+        for c in rec.get('inner', []) or []:
+            if c.get('kind') == 'CXXMethodDecl' and c.get('name') == meth and has_body(c):
+                body = [x for x in c['inner'] if x.get('kind') == 'CompoundStmt'][0]
+                n = MiniInterp(self, rec['id'], {}).run(body)
+                return ('a', self.resolve(T.parse(elt), fc.fid), int(n))
+        raise Unsupported('VLA bound %s: method has no constexpr body' % qs)
+
     def vardecl(self, v, fc, pad):
+        vt = self.vla_type(v, fc)
+        if vt is not None:
+            return [pad + self.ctype(vt, v['name']) + ';']
         ty = self.ntype(v, fc.fid)
         nm = v['name']
         out = []
@@ -1801,6 +1860,8 @@ class Emitter(Unit):
                     return s if v >= 0 else '(%s)' % s
                 except Unsupported:
                     raise Unsupported('reference to non-constant global/static %s' % r.get('name'))
+            if d is not None and self.vla_type(d, fc) is not None:
+                return r['name']
             ty = self.resolve(T.parse(r['type']['qualType']), fc.fid) if d is None else self.ntype(d, fc.fid)
             if T.is_ref(ty):
                 return '(*%s)' % r['name']
@@ -2019,6 +2080,12 @@ class Emitter(Unit):
             raise Unsupported('constructor %s of %s not found' % (ctor_type, T.show(ty)))
         if not has_body(ctor) or (ctor.get('isImplicit') and self.all_trivial_members(rec)):
             if len(args) == 0:
+                nsdmi = [c for c in rec.get('inner', []) or [] if c.get('kind') == 'FieldDecl' and c.get('hasInClassInitializer') and c.get('inner')]
+                zeroing = e.get('zeroing') or e.get('kind') == 'CXXTemporaryObjectExpr'
+                if nsdmi or zeroing:
+                    # value-initialisation / default member initialisers: members not named are zero in a C compound literal
+                    items = ['.%s = %s' % (c['name'], self.expr(c['inner'][-1], fc)) for c in nsdmi]
+                    return '((%s){%s})' % (self.ctype(ty), ', '.join(items) or '0')
                 return None
             if len(args) == 1:
                 return self.expr(args[0], fc)
@@ -2126,6 +2193,10 @@ class Emitter(Unit):
         c = self.callee_decl(e)
         args = e['inner'][1:]
         self.bind_lambdas(args)
+        if c.get('kind') == 'MemberExpr' and c.get('referencedMemberDecl') and self.ix.get(c['referencedMemberDecl']) is not None \
+                and self.ix.get(c['referencedMemberDecl'])['kind'] in FUNC_KINDS and self.ix.get(c['referencedMemberDecl']).get('storageClass') == 'static':
+            md = self.ix.get(c['referencedMemberDecl'])
+            c = {'kind': 'DeclRefExpr', 'referencedDecl': {'id': md['id'], 'kind': md['kind'], 'name': md.get('name')}}
         if c.get('kind') != 'DeclRefExpr':
             raise Unsupported('indirect call at %s:%s' % (e.get('_file'), e.get('_line')))
         r = c['referencedDecl']
@@ -2347,7 +2418,63 @@ class Emitter(Unit):
         raise Unsupported('std function %s at %s:%s' % (q, e.get('_file'), e.get('_line')))
 
     def std_algo(self, name, e, args, fc):
-        raise Unsupported('std algorithm %s' % name)
+        """std::sort / lower_bound / upper_bound on pointer-modelled iterators -> model macros of stl_model.h"""
+        t0 = T.strip_ref(self.ntype(args[0], fc.fid))
+        if t0[0] != 'p':
+            raise Unsupported('std::%s on non-pointer iterators' % name)
+        el = self.unconst(t0[1])
+        elc = self.ctype(el)
+        first = self.expr(args[0], fc)
+        last = self.expr(args[1], fc)
+        self.nadapt = getattr(self, 'nadapt', 0) + 1
+        ad = '__verif_cmp_adapter_%d' % self.nadapt
+        cmp = args[-1]
+        c0 = self.skip_wrappers(cmp)
+        while c0.get('kind') == 'ImplicitCastExpr':
+            c0 = c0['inner'][0]
+        if name == 'sort':
+            if c0.get('kind') != 'DeclRefExpr' or c0['referencedDecl']['kind'] not in FUNC_KINDS:
+                raise Unsupported('std::sort comparator is not a plain function')
+            fd = self.ix.get(c0['referencedDecl']['id'])
+            cn = self.request(fd['id'])
+            ps = [c for c in fd['inner'] if c.get('kind') == 'ParmVarDecl']
+            a = ['a' if T.is_ref(self.ntype(ps[0], fd['id'])) else '(*a)', 'b' if T.is_ref(self.ntype(ps[1], fd['id'])) else '(*b)']
+            self.adapters.append('static inline _Bool %s(const void *clos, const %s *a, const %s *b) { (void)clos; return %s(%s, %s); }' % (ad, elc, elc, cn, a[0], a[1]))
+            return 'STD_SORT(%s, %s, %s, %s)' % (elc, first, last, ad)
+        # lower_bound / upper_bound (first, last, value, comp)
+        val = args[2]
+        vt = self.unconst(T.strip_ref(self.ntype(val, fc.fid)))
+        vtc = self.ctype(vt)
+        valp = self.addr(val, fc)
+        if c0.get('kind') != 'LambdaExpr':
+            raise Unsupported('std::%s comparator is not a lambda' % name)
+        self.bind_lambdas([cmp])
+        recid = c0['inner'][0]['id']
+        clos_t = ('lam', '', recid)
+        ct = self.new_temp(fc, clos_t)
+        closexpr = self.e_LambdaExpr(c0, fc)
+        # instantiated call operator with two parameters
+        ops = []
+        for x in walk(c0['inner'][0]):
+            if x.get('kind') == 'CXXMethodDecl' and x.get('name') == 'operator()' and has_body(x) and not self.is_pattern_fn(x['id']):
+                ops.append(x)
+        want = (elc, vtc) if name == 'lower_bound' else (vtc, elc)
+        op = None
+        for x in ops:
+            ps = [c for c in x['inner'] if c.get('kind') == 'ParmVarDecl']
+            if len(ps) == 2 and tuple(self.ctype(self.unconst(T.strip_ref(self.ntype(p, x['id'])))) for p in ps) == want:
+                op = x
+        if op is None:
+            raise Unsupported('std::%s: no matching instantiated comparator call operator' % name)
+        cn = self.request(op['id'])
+        ps = [c for c in op['inner'] if c.get('kind') == 'ParmVarDecl']
+        pa = ['a' if T.is_ref(self.ntype(ps[0], op['id'])) else '(*a)', 'b' if T.is_ref(self.ntype(ps[1], op['id'])) else '(*b)']
+        closc = 'struct ' + self.need_closure(recid)
+        if name == 'lower_bound':
+            self.adapters.append('static inline _Bool %s(const void *clos, const %s *a, const %s *b) { return %s((const %s *)clos, %s, %s); }' % (ad, elc, vtc, cn, closc, pa[0], pa[1]))
+            return 'STD_LOWER_BOUND(%s, %s, %s, %s, %s, (%s = %s, &%s))' % (elc, first, last, valp, ad, ct, closexpr, ct)
+        self.adapters.append('static inline _Bool %s(const void *clos, const %s *a, const %s *b) { return %s((const %s *)clos, %s, %s); }' % (ad, vtc, elc, cn, closc, pa[0], pa[1]))
+        return 'STD_UPPER_BOUND(%s, %s, %s, %s, %s, (%s = %s, &%s))' % (elc, first, last, valp, ad, ct, closexpr, ct)
 
     def e_LambdaExpr(self, e, fc):
         self.closure_table()
@@ -2392,6 +2519,8 @@ class Emitter(Unit):
         out.append('#define SPEC_PART_CONTRACTS\n#include "%s"\n#undef SPEC_PART_CONTRACTS' % spec_include)
         for m in self.loop_macros:
             out.append('#ifndef %s\n#define %s\n#endif' % (m['macro'], m['macro']))
+        for a in self.adapters:
+            out.append(a)
         for cn, b in self.func_bodies.items():
             out.append(b)
             out.append('')
